@@ -82,6 +82,19 @@ class F:
     """File object returned by the shimmed open()."""
 
     def __init__(self, fs, path, mode, encoding=None):
+        self.keep = None
+        self.written = b""
+        if isinstance(path, tuple) and path and path[0] == "fd":
+            # open(fd, mode) on a descriptor from the shimmed os.open: nothing is created or truncated here (os.open did what its
+            # flags said); writing starts at offset 0 and OVERWRITES - whatever the file held beyond what gets written stays
+            self.fs, self.path, self.mode = fs, path[1], mode
+            self.bin = "b" in mode
+            self.closed = False
+            self.buf = b""
+            self.pos = 0
+            if ("w" in mode or "+" in mode) and not (len(path) > 2 and path[2] & os.O_APPEND):
+                self.keep = fs.vol.get(self.path, b"")
+            return
         path = fs.resolve(path)
         self.fs, self.path, self.mode = fs, path, mode
         self.bin = "b" in mode
@@ -118,7 +131,11 @@ class F:
         self._flush()
 
     def _flush(self):
-        if "w" in self.mode or "x" in self.mode or "a" in self.mode:
+        if self.keep is not None:
+            self.written += self.buf
+            self.buf = b""
+            self.fs.vol[self.path] = self.written + self.keep[len(self.written):]
+        elif "w" in self.mode or "x" in self.mode or "a" in self.mode:
             self.fs.vol[self.path] = self.fs.vol.get(self.path, b"") + self.buf
             self.buf = b""
 
@@ -184,9 +201,12 @@ class OsProxy:
         return self.fs.resolve(p) in self.fs.vol
 
     def access(self, p, mode):
-        return True
+        # deny: the location is momentarily not writable (set by the driver for one save attempt)
+        return not (getattr(self.fs, "deny", False) and mode & os.W_OK)
 
     def fsync(self, fd):
+        if hasattr(fd, "fileno"):
+            fd = fd.fileno()
         if fd[0] == "dirfd":
             return                  # metadata operations are durable at once in this model
         self.fs.op("fsync", fd[1])
@@ -219,10 +239,29 @@ class OsProxy:
         self.fs.dur[b] = self.fs.dur.get(a, b"")
 
     def open(self, p, flags=0, mode=0o777):
-        """os.open is only meaningful here for directories (directory fsync)."""
+        """os.open: a directory (for a directory fsync) or, with write / create flags or for an existing file, a file whose
+        descriptor can be handed to open() / os.fdopen(); creation and truncation happen here, exactly as the flags say."""
         if p == "" or not str(p).startswith("/virt"):
             raise FileNotFoundError(errno.ENOENT, "no such file or directory", p)
-        return ("dirfd", p)
+        rp = self.fs.resolve(p)
+        if not (flags & (os.O_WRONLY | os.O_RDWR | os.O_CREAT)) and rp not in self.fs.vol:
+            return ("dirfd", p)
+        self.fs.op("open", rp, "os.open")
+        if rp in self.fs.vol:
+            if flags & os.O_CREAT and flags & os.O_EXCL:
+                raise FileExistsError(errno.EEXIST, "file exists", p)
+        elif flags & os.O_CREAT:
+            self.fs.vol[rp] = b""
+            self.fs.dur[rp] = b""
+        else:
+            raise FileNotFoundError(errno.ENOENT, "no such file", p)
+        if flags & os.O_TRUNC:
+            self.fs.vol[rp] = b""
+            self.fs.dur[rp] = b""
+        return ("fd", rp, flags)
+
+    def fdopen(self, fd, mode="r", *args, **kwargs):
+        return F(self.fs, fd, mode, kwargs.get("encoding"))
 
     def close(self, fd):
         return None
